@@ -1,5 +1,5 @@
 (* Commands of the extracted binary for the trace decoder (C15).
-     pyfmt <fmt utf8> <arg>...            -> string | null (the interpreter raises) | {"unsupported":true}
+     trace_pyfmt <fmt utf8> <arg>...      -> string | null (the interpreter raises) | {"unsupported":true}
      trace <table> <data>                 -> [lines] | {"unsupported":true}
      trace_batch <table> <data>...        -> [answer of trace for every data]
      trace_spec <table> <hdr> <entry>...  -> {"wf":bool,"data":"hex","lines":[...],"unsupported":bool}
@@ -100,7 +100,7 @@ Fixpoint join_big (l : list text) : text :=
   end.
 
 Definition run_trace (cmd : text) (args : list bytes) : option text :=
-  if t_is cmd (L "pyfmt") then
+  if t_is cmd (L "trace_pyfmt") then
     Some (render (match pyfmt (t_text (t_arg 0 args)) (map (fun b => be_val b 0) (tl args)) with
                   | FOk t => JStr t
                   | FError => JNull
